@@ -18,6 +18,7 @@ open CuqiVerif.C20 (BC)
         -> verdict name
     approx <bc> <pd> <n> <x vec> <alpha>   -> "<shape> <Dx vec>"
     approxr <bc> <pd> <n> <x vec> <alpha> <beta>   -> "<shape> <rateLo> <rateHi>": rational enclosure of the ConjugateApprox rate
+    directv <hasSample|userSampleFunc|userNoSampleFunc|conditional|noSampleMethod> <assignments> <N>  -> "ok <calls of the sampling routine>" | "TypeError"
     direct <nValidate> <N>                 -> chain of draw indices, acceptance list
     gmrfs  … same arguments and answer as `gmrf`, evaluated by stencils (`gmrfQuadFast`, equal to `gmrfQuad` by theorem
            `gmrfQuadFast_eq`): for large grids
@@ -173,6 +174,16 @@ def step : List String → String
         let dx := approxDx bc pd n x
         s!"{fmtRat (approxShape x al)} {fmtRat (approxRateLo dx be approxBits)} {fmtRat (approxRateHi dx be approxBits)}"
     | _, _, _, _, _, _ => "bad-op"
+  | ["directv", kind, k, n] =>
+    match (match kind with
+           | "hasSample" => some DTarget.hasSample | "userSampleFunc" => some DTarget.userSampleFunc
+           | "userNoSampleFunc" => some DTarget.userNoSampleFunc | "conditional" => some DTarget.conditional
+           | "noSampleMethod" => some DTarget.noSampleMethod | _ => none), k.toNat?, n.toNat? with
+    | some t, some k, some n =>
+      match directCalls t k n with
+      | some c => s!"ok {c}"
+      | none => "TypeError"
+    | _, _, _ => "bad-op"
   | ["direct", nv, n] =>
     match nv.toNat?, n.toNat? with
     | some nv, some n =>
